@@ -312,7 +312,15 @@ func c18Enumeration(c *Ctx, ge *GuardEngine) {
 		where := c.P.Pos(fn.Pos())
 		ok1, _ := has(cs, "types.computeMultiproof", "{types.V2TransactionsMultiproof}")
 		c.Check(ok1, "proof-count", "encoder:proof-of-original", where, ifElse(ok1, "the multiproof is computed from the receiver, which still carries its proofs", "computeMultiproof is not applied to the original (proof-carrying) transactions"))
-		ok2, _ := has(cs, "(types.V2Transaction).DeepCopy", "{types.V2TransactionsMultiproof}[*]")
+		// a per-transaction copy by any name: a module function that takes an element of the receiver and returns a
+		// V2Transaction (that the copy owns every element the walker strips is C09: inputs-not-written with the
+		// encoder as an entry, and copy-loop-complete)
+		ok2 := false
+		for _, cf := range cs {
+			if cf.Callee != nil && c.P.InModule(cf.Callee) && len(cf.Args) > 0 && cf.Args[0] == "{types.V2TransactionsMultiproof}[*]" && cf.Callee.Signature.Results().Len() == 1 && typeName(cf.Callee.Signature.Results().At(0).Type()) == "types.V2Transaction" {
+				ok2 = true
+			}
+		}
 		ok3, f3 := has(cs, "types.forEachElementLeaf", "…")
 		stripsCopy := ok3 && !strings.Contains(f3.Args[0], "{types.V2TransactionsMultiproof}")
 		c.Check(ok2 && stripsCopy, "proof-count", "encoder:strips-copies-only", where, ifElse(ok2 && stripsCopy, "proofs are stripped from deep copies, enumerated by the same walker", "the encoder strips proofs from "+f3.Args0()+" (deep copy made: "+fmt.Sprint(ok2)+"): the caller's transactions must not lose their proofs"))
